@@ -472,7 +472,7 @@ def history_cases(rng, tier):
     sizes = [2 ** 20 + 600] if tier == "quick" else [2 ** 20 - 8, 2 ** 20 + 600, 3 * 2 ** 19, 2 ** 21 + 8]
     for size in sizes:
         big = (b"k" + d) * (size // 2) + b"k"
-        bigp = (b"k" + d + d) * (size // 3) + b"k"
+        bigp = (b"k" + d + d) * (size // 2) + b"k"          # (its COMPRESSED form, `k-k-…`, is what must exceed the size)
         tails = [b"f", b"a-b--c", b"", b"--", b"q-r"]
         for (l, r) in [(1, 1), (2, 2), (-1, -1), (1, None)]:
             for o in ({"p": True}, {"p": True, "s": True}, {"p": True, "j": True}, {}, {"s": True}):
